@@ -1,0 +1,36 @@
+//! Reference-processing accessors for the verification harness (cfg mmtk_verif only; C06).
+
+use crate::plan::{Mutator, MutatorContext};
+use crate::util::ObjectReference;
+use crate::vm::VMBinding;
+use crate::MMTK;
+
+/// What the reference processors and the finalizable processor hold right now.
+pub struct RefProcSnapshot {
+    /// `(references, enqueued_references)` of the soft, weak and phantom processor.
+    pub tables: [(Vec<ObjectReference>, Vec<ObjectReference>); 3],
+    /// Finalizer candidates (one entry per registration).
+    pub candidates: Vec<ObjectReference>,
+    /// Objects ready for finalization and not yet popped.
+    pub ready: Vec<ObjectReference>,
+    /// `FinalizableProcessor::nursery_index`.
+    pub nursery_index: usize,
+}
+
+/// Snapshot of the reference tables and finalizer lists (reporting only).
+pub fn refproc_snapshot<VM: VMBinding>(mmtk: &MMTK<VM>) -> RefProcSnapshot {
+    let tables = mmtk.reference_processors.verif_tables();
+    let (candidates, ready, nursery_index) =
+        mmtk.finalizable_processor.lock().unwrap().verif_lists();
+    RefProcSnapshot {
+        tables,
+        candidates,
+        ready,
+        nursery_index,
+    }
+}
+
+/// The weak-reference load barrier of the mutator's barrier (`Barrier` is not exported).
+pub fn load_weak_reference<VM: VMBinding>(mutator: &mut Mutator<VM>, referent: ObjectReference) {
+    mutator.barrier().load_weak_reference(referent);
+}
